@@ -773,6 +773,9 @@ func (e *Env) call(x *ECall) TV {
 		if c.sortOfTV(av) == "Slice" {
 			return TV{T: sel(comp, "(sref "+av.T+")"), Ty: B}
 		}
+		if c.sortOfTV(av) != "Ref" {
+			tfail("alive() of a value that is not a reference")
+		}
 		return TV{T: sel(comp, av.T), Ty: B}
 	case "typeIs": // typeIs(iface, T)
 		v := arg(0)
